@@ -17,6 +17,7 @@ enumeration on the real code (checks/C16.py).
 -/
 import MpcVerif.Proofs.Proto2
 import MpcVerif.Model.LabelBV
+import MpcVerif.Model.StreamResult
 
 namespace Mpc
 open LabelAlg
@@ -139,6 +140,194 @@ theorem C16_garblerDecode_eq (p : Circuit2) (G : Garbled L) (ls : List L) :
         cases h2 : decodeLabels ((List.range' (i + 1) ls.length).map fun j =>
           G.wires.get (p.c.numWires - p.c.nOut + j)) ls <;> simp_all
 
+/-! ## Streaming sessions: the result loop counts
+
+`compiler/ssa/streamer.go` reads exactly `Outputs.Size()` labels, one
+`ReceiveLabel` each; `decodeLabels` (the decision logic above) stops at the
+shorter of its two lists, so the COUNT is a separate obligation. -/
+
+/-- The streaming result loop is the shared decision logic applied to exactly
+the first `ws.length` labels of the stream. -/
+theorem C16_streamResultLoop_eq_decode :
+    ∀ (ws : List (WireL L)) (ls : List L) (bs : List Bool) (rest : List L),
+      streamResultLoop ws ls = .ok (bs, rest) →
+      ws.length ≤ ls.length ∧ rest = ls.drop ws.length ∧
+        decodeLabels ws (ls.take ws.length) = .ok bs := by
+  intro ws
+  induction ws with
+  | nil =>
+    intro ls bs rest h
+    simp only [streamResultLoop, Except.ok.injEq, Prod.mk.injEq] at h
+    obtain ⟨h1, h2⟩ := h
+    subst h1; subst h2
+    simp [decodeLabels]
+  | cons w ws ih =>
+    intro ls bs rest h
+    cases ls with
+    | nil => simp [streamResultLoop] at h
+    | cons l ls =>
+      simp only [streamResultLoop] at h
+      cases hb : w.bitFrom l with
+      | none => rw [hb] at h; simp at h
+      | some b =>
+        rw [hb] at h
+        simp only at h
+        cases hrest : streamResultLoop ws ls with
+        | error e => rw [hrest] at h; simp at h
+        | ok pr =>
+          obtain ⟨bs', rest'⟩ := pr
+          rw [hrest] at h
+          simp only [Except.ok.injEq, Prod.mk.injEq] at h
+          obtain ⟨h1, h2⟩ := h
+          subst h1; subst h2
+          obtain ⟨hle, hdrop, hdec⟩ := ih ls bs' rest' hrest
+          refine ⟨by simp; omega, by simpa using hdrop, ?_⟩
+          simp only [List.length_cons, List.take_succ_cons, decodeLabels, hb, hdec]
+
+/-- **C16 (streaming result loop counts).**  If the streaming garbler's result
+loop returns `ok`, it consumed EXACTLY `ws.length = Outputs.Size()` labels (the
+stream held at least that many, the rest is left unread), it produced exactly
+that many bits, and label `i` is one of the two labels of result wire `i`,
+decoded accordingly.  A stream that ends early is an error, never a shorter
+result. -/
+theorem C16_stream_result_count (ws : List (WireL L)) (ls : List L) (bs : List Bool) (rest : List L)
+    (h : streamResultLoop ws ls = .ok (bs, rest)) :
+    bs.length = ws.length ∧ ws.length ≤ ls.length ∧ rest = ls.drop ws.length ∧
+      ∀ i (hw : i < ws.length) (hl : i < ls.length) (hb : i < bs.length),
+        (ls[i] = ws[i].l0 ∧ bs[i] = false) ∨ (ls[i] = ws[i].l1 ∧ bs[i] = true) := by
+  obtain ⟨hle, hdrop, hdec⟩ := C16_streamResultLoop_eq_decode ws ls bs rest h
+  have hlen : ws.length = (ls.take ws.length).length := by simp; omega
+  obtain ⟨hbl, hall⟩ := C16_ok_imp_known_labels ws (ls.take ws.length) bs hlen hdec
+  refine ⟨by omega, hle, hdrop, ?_⟩
+  intro i hw hl hb
+  have := hall i (by omega) hw hb
+  simpa [List.getElem_take] using this
+
+/-- A stream that ends before `Outputs.Size()` labels arrived is an error. -/
+theorem C16_stream_short_is_error (ws : List (WireL L)) (ls : List L) (hlt : ls.length < ws.length) :
+    ∀ bs rest, streamResultLoop ws ls ≠ .ok (bs, rest) := by
+  intro bs rest h
+  have := (C16_streamResultLoop_eq_decode ws ls bs rest h).1
+  omega
+
+/-- The reduction for streaming sessions: honest garbler state, ARBITRARY
+arriving stream; a wrong value returned as success implies that one of the
+first `Outputs.Size()` labels equals the honest label xor `r`. -/
+theorem C16_stream_wrong_imp_offset (r : L) (ws : List (WireL L)) (v : List Bool) (ls : List L)
+    (bs : List Bool) (rest : List L) (hpairs : ∀ w ∈ ws, w.l1 = w.l0 ^^^ r) (hv : v.length = ws.length)
+    (hok : streamResultLoop ws ls = .ok (bs, rest)) (hwrong : bs ≠ v) :
+    ∃ i, ∃ (hi : i < ls.length) (hw : i < ws.length) (hvi : i < v.length),
+      ls[i] = ws[i].labelFor v[i] ^^^ r := by
+  obtain ⟨hle, _, hdec⟩ := C16_streamResultLoop_eq_decode ws ls bs rest hok
+  have hlen : ws.length = (ls.take ws.length).length := by simp; omega
+  obtain ⟨i, hi, hw, hvi, h⟩ := C16_wrong_imp_offset r ws v (ls.take ws.length) bs hpairs hv hlen hdec hwrong
+  exact ⟨i, by omega, hw, hvi, by simpa [List.getElem_take] using h⟩
+
+/-- **Negation witness for a loop that resolves `len(block)/16` labels** (the
+seeded change S86, `blockResultLoop`): a block holding only the first of two
+honest result labels is ACCEPTED and decodes to 1 where the result is 3; the
+repository's loop (`streamResultLoop`) reports an error on the same stream. -/
+theorem C16_block_loop_accepts_short_block :
+    ∃ (ws : List (WireL (BitVec 128))) (v : List Bool) (block : List (BitVec 128)) (bs : List Bool),
+      v.length = ws.length ∧
+      block = (List.zipWith (fun w b => w.labelFor b) ws v).take block.length ∧
+      blockResultLoop ws block = .ok bs ∧ bs.length < ws.length ∧ packLE bs ≠ packLE v ∧
+      streamResultLoop ws block = .error .desync :=
+  ⟨[⟨3#128, 5#128⟩, ⟨7#128, 9#128⟩], [true, true], [5#128], [true], by decide, by decide,
+    by simp [blockResultLoop, decodeLabels, WireL.bitFrom], by decide, by decide,
+    by simp [streamResultLoop, WireL.bitFrom]⟩
+
+/-! ## What the reduction does NOT cover: the evaluator's input bits
+
+`C16_wrong_imp_offset` speaks about the labels that come back.  The honest
+evaluator obtains, by OT, the labels of the input bits IT ASKS FOR; in a
+streaming session it computes those bits by parsing its own input strings with
+the argument description the garbler sent (`receiveArgument`, then
+`IOArg.Parse`).  If a transit corruption changes that description, the
+evaluator asks for the bits of another input `y'`, evaluates honestly and
+returns the honest labels of `f(x, y')`: every one of them is a label of its
+wire, the result loop succeeds, and where `f(x, y') ≠ f(x, y)` the conclusion
+of `C16_wrong_imp_offset` holds although no label was forged: the evaluator
+was GIVEN the other label by the OT. -/
+
+/-- Honest labels of ANY output vector `v'` pass the result loop (both loops)
+and decode to `v'`: the garbler cannot tell `f(x, y')` from `f(x, y)`. -/
+theorem C16_labels_of_other_input_accepted :
+    ∀ (ws : List (WireL L)) (v' : List Bool), (∀ w ∈ ws, w.l0 ≠ w.l1) → v'.length = ws.length →
+      streamResultLoop ws (List.zipWith (fun w b => w.labelFor b) ws v') = .ok (v', []) := by
+  intro ws
+  induction ws with
+  | nil =>
+    intro v' _ hlen
+    cases v' with
+    | nil => simp [streamResultLoop]
+    | cons b bs => simp at hlen
+  | cons w ws ih =>
+    intro v' hne hlen
+    cases v' with
+    | nil => simp at hlen
+    | cons b bs =>
+      have hw := hne w (by simp)
+      have := ih bs (fun w' hw' => hne w' (by simp [hw'])) (by simpa using hlen)
+      simp only [WireL.labelFor] at this
+      cases b
+      · simp [streamResultLoop, WireL.labelFor, WireL.bitFrom, this]
+      · have h10 : w.l1 ≠ w.l0 := fun h => hw h.symm
+        simp [streamResultLoop, WireL.labelFor, WireL.bitFrom, this, h10]
+
+namespace C16Desc
+open IoArg
+
+/-- `main(a uint16, b Pair)` with `type Pair struct { x, y uint16 }`: the
+description of the evaluator's argument as the garbler sends it. -/
+def pair : Desc :=
+  .mk (.base .struct 32 0) 32 [.mk (.base .uint 16 0) 16 [], .mk (.base .uint 16 0) 16 []]
+/-- The same description with the low byte of member `x`'s size word xor 0x18
+(garbler->evaluator offset 102 of that session): 16 becomes 8. -/
+def pairCorrupted : Desc :=
+  .mk (.base .struct 32 0) 32 [.mk (.base .uint 16 0) 8 [], .mk (.base .uint 16 0) 16 []]
+/-- The evaluator's input strings `0x0102 0x0304`. -/
+def pairInput : List StrFacts :=
+  [StrFacts.ofString "0x0102" (some 0x0102), StrFacts.ofString "0x0304" (some 0x0304)]
+
+/-- `main(a uint16, b []uint16)`, evaluator input of three elements (48 bits). -/
+def slice16 : Desc := .mk (.elem .slice 0 0 (.base .uint 16 0)) 48 []
+/-- The type string `[]uint16` with one bit of the digit `6` flipped: `[]uint12`. -/
+def slice12 : Desc := .mk (.elem .slice 0 0 (.base .uint 12 0)) 48 []
+def sliceInput : List StrFacts := [StrFacts.ofString "0xef78402e5eeb" (some 0xef78402e5eeb)]
+
+end C16Desc
+
+open C16Desc in
+/-- **Witness (defect found on the unchanged tree).**  Under the corrupted
+description the evaluator's own `IOArg.Parse` packs the same strings into
+another 32-bit input (`0x00030402` instead of `0x03040102`): with
+`f(a, b) = a + b.x + 2*b.y` and `a = 1000` the session completes and the
+garbler returns 2032 instead of 2802.  The unpatched `receiveArgument` accepts
+both descriptions (it checks nothing); the checks of the repair
+(`Desc.ok`) reject the corrupted one: members of 8 + 16 bits in a compound of
+32, size word 8 for type string `uint16`. -/
+theorem C16_description_member_width_witness :
+    (pair.toArg.parse pairInput).toOption = some 0x03040102 ∧
+    (pairCorrupted.toArg.parse pairInput).toOption = some 0x00030402 ∧
+    (1000 + 0x0102 + 2 * 0x0304 = 2802 ∧ 1000 + 0x0402 + 2 * 0x0003 = 2032) ∧
+    pair.ok = true ∧ pairCorrupted.ok = false := by
+  decide +kernel
+
+open C16Desc in
+/-- **Witness (what no local check can close).**  The element width of a slice
+argument travels only in the type string.  `[]uint16` and `[]uint12` with size
+word 48 BOTH pass every local consistency check (48 is a multiple of 16 and
+of 12), and the same input string parses to different input bits: after the
+repair the result is still `f(x, y')` for another well-formed input `y'`, and
+only an authenticated description (or the evaluator knowing the program) could
+tell.  -/
+theorem C16_description_residual_witness :
+    slice16.ok = true ∧ slice12.ok = true ∧
+    (slice16.toArg.parse sliceInput).toOption = some 0x5eeb402eef78 ∧
+    (slice12.toArg.parse sliceInput).toOption = some 0xeeb2e5840ef7 := by
+  decide +kernel
+
 /-- Evaluator-side decision logic: a wrong gate count in the first flight is an
 error, not an evaluation. -/
 theorem C16_wrong_gate_count (p : Circuit2) (key : List UInt8) (count : Nat) (ms : List (Msg L))
@@ -153,5 +342,12 @@ example : decodeLabels [(⟨3#128, 5#128⟩ : WireL (BitVec 128))] [5#128] = .ok
   simp [decodeLabels, WireL.bitFrom]
 example : decodeLabels [(⟨3#128, 5#128⟩ : WireL (BitVec 128))] [4#128] = .error (.unknownLabel 0) := by
   simp [decodeLabels, WireL.bitFrom]
+/-- non-vacuity of `C16_stream_result_count`: an accepted stream with a label left unread -/
+example : streamResultLoop [(⟨3#128, 5#128⟩ : WireL (BitVec 128))] [5#128, 9#128] = .ok ([true], [9#128]) := by
+  simp [streamResultLoop, WireL.bitFrom]
+example : streamResult 0 [(⟨3#128, 5#128⟩ : WireL (BitVec 128))] [3#128] = .ok [false] := by
+  simp [streamResult, streamResultLoop, WireL.bitFrom]
+example : streamResult 1 [(⟨3#128, 5#128⟩ : WireL (BitVec 128))] [3#128] = .error .desync := by
+  simp [streamResult]
 
 end Mpc
